@@ -133,3 +133,10 @@ Definition valget_decode (signed_keys : list N) (data : bytes) : res (fields * l
   let* (h, work) := unpack_fields (fresh_fields valget_hdr) data in
   let* its := valget_items signed_keys (length work) work in
   Ok (h, its).
+
+(* frame.pack() of a decoded VALGET response: header fields, then every item re-packed in order *)
+Definition valget_reencode (signed_keys : list N) (data : bytes) : res bytes :=
+  let* (h, its) := valget_decode signed_keys data in
+  let* hb := encode h in
+  let* ib := pack_items its in
+  Ok (hb ++ ib).
